@@ -10,7 +10,8 @@ of the layout numbers `L` (one-line limits, wrap limit, indentation), in particu
 `PPrint.limits`, the numbers read from the source, and at every offset.
 
 Domain (`WF`): strings and keys without `"`, `\` and control characters; number tokens are the
-opaque text `str()` printed (digits, sign, `.`, `e`); no hypothesis on shapes, sizes, nesting.
+text `str()` printed, required to follow the JSON number grammar (`numOk`; true of every finite
+int / float); no hypothesis on shapes, sizes, nesting.
 `norm v` = `v` with the entries of every dict in sorted key order (`norm_perm`, `keys_sorted`).
 -/
 namespace C11
@@ -39,7 +40,7 @@ theorem read_render (L : Limits) (v : J) (off : Nat) (h : WF v) :
     read jsonConsts (text (gen jsonConsts L v off)) = some (norm v) ∧
     read pyConsts (text (gen pyConsts L v off)) = some (norm v) := by
   obtain ⟨h1, h2⟩ := no_loss L v off h
-  simp [read, h1, h2, parse_toks]
+  simp [PPrint.read, h1, h2, parse_toks]
 
 /-- `norm v` is the same value: equal up to the order of the entries of dicts (what Python's `==`
 compares) -/
@@ -55,6 +56,13 @@ theorem lines (c : Consts) (L : Limits) (v : J) (off : Nat) :
     joinLines (groupLines (gen c L v off)) = text (gen c L v off) :=
   joinLines_groupLines_gen c L v off
 
+/-- … so the text rebuilt from the line iteration reads back as the value too -/
+theorem read_lines (L : Limits) (v : J) (off : Nat) (h : WF v) :
+    read jsonConsts (joinLines (groupLines (gen jsonConsts L v off))) = some (norm v) ∧
+    read pyConsts (joinLines (groupLines (gen pyConsts L v off))) = some (norm v) := by
+  rw [lines, lines]
+  exact read_render L v off h
+
 /-- The reader is a function on texts and reads the canonical tokens of every value back, so two
 values with the same printed text have the same `norm` (the text determines the value). -/
 theorem text_determines_value (L : Limits) (v w : J) (off off' : Nat) (hv : WF v) (hw : WF w)
@@ -64,12 +72,17 @@ theorem text_determines_value (L : Limits) (v w : J) (off off' : Nat) (hv : WF v
   rw [h, b] at a
   exact (Option.some.inj a).symm
 
-/-! Non-vacuity: a value that is in the domain and exercises the layouts, evaluated by the kernel
-with the numbers of the source. -/
+/-! Non-vacuity: a value that is in the domain and exercises the layouts, evaluated by the kernel.
+The examples about `limits` (the numbers of the source) are true for any numbers, so a changed
+threshold re-checks them; the exact text is pinned for the numbers the source had when this file
+was written (`limits0`). -/
+
+/-- one-line limits 200, wrap limit 150, indentation 2 -/
+def limits0 : Limits := ⟨200, 200, 150, 2⟩
 
 /-- a dict (unsorted keys) holding a list that must be wrapped, a nested dict and constants -/
 def sample : J :=
-  .dict [("zz".toList, .list (List.replicate 70 (.str "abcdefgh".toList))),
+  .dict [("zz".toList, .list (List.replicate 8 (.str "abcdefghijklmnopqrstuvwxyz0123".toList))),
          ("b".toList, .dict [("k".toList, .num "-1.5e+22".toList), ("a".toList, .kw .nul)]),
          ("a b".toList, .list [.kw .tt, .list [], .dict [], .list [.kw .ff]])]
 
@@ -87,8 +100,12 @@ example : (lex jsonConsts (text (gen jsonConsts limits sample 0))) = some (toks 
 example : (read pyConsts (text (gen pyConsts limits sample 0))).map toks = some (toks (norm sample)) := by
   decide +kernel
 
-/-- the wrapped layout is really used for `sample` (7 lines for the 70 strings) and the keys come
-out sorted -/
-example : (groupLines (gen jsonConsts limits sample 0)).length = 19 := by decide +kernel
+/-- the exact text the real printer produces for `sample` (copied from a run of the real code):
+keys sorted, the 8 strings wrapped over 2 lines, the nested dict on one line -/
+example : text (gen jsonConsts limits0 sample 0) =
+    "{\n  \"a b\": [\n    true,\n    [],\n    {},\n    [false]\n  ],\n  \"b\": {\"a\": null, \"k\": -1.5e+22},\n  \"zz\": [\n    \"abcdefghijklmnopqrstuvwxyz0123\", \"abcdefghijklmnopqrstuvwxyz0123\", \"abcdefghijklmnopqrstuvwxyz0123\", \"abcdefghijklmnopqrstuvwxyz0123\",\n    \"abcdefghijklmnopqrstuvwxyz0123\", \"abcdefghijklmnopqrstuvwxyz0123\", \"abcdefghijklmnopqrstuvwxyz0123\", \"abcdefghijklmnopqrstuvwxyz0123\"\n  ]\n}".toList := by
+  decide +kernel
+
+example : (groupLines (gen jsonConsts limits0 sample 0)).length = 13 := by decide +kernel
 
 end C11
